@@ -964,22 +964,39 @@ fn emit_one(otlp: &emit_otlp::Otlp, ev: &Ev, n: u64, nested: Option<(&Ev, u64)>)
         }
         Kind::Unknown => props.push(("evt_kind", emit::Value::from("something_else"))),
     }
+    // Shadowed well-known keys: later values of a key that already has its first, effective value. They sit either in
+    // the same property list, or in a second list chained behind the first with `and_props` - which is how an event
+    // meets the ambient context on its way through a runtime.
+    let mut behind: Vec<(&str, emit::Value)> = Vec::new();
+    let chained = ev.shadow && n % 2 == 1;
     if ev.shadow {
+        let into: &mut Vec<(&str, emit::Value)> = if chained { &mut behind } else { &mut props };
         // only keys that already have a (first, effective) value can be shadowed
-        if ev.kind != Kind::None {
-            props.push(("evt_kind", match ev.kind {
-                Kind::Metric => emit::Value::from_any(&emit::Kind::Span),
-                _ => emit::Value::from_any(&emit::Kind::Metric),
-            }));
+        match ev.kind {
+            Kind::None => {}
+            Kind::Metric => into.push(("evt_kind", emit::Value::from_any(&emit::Kind::Span))),
+            Kind::Span => into.push(("evt_kind", emit::Value::from_any(&emit::Kind::Metric))),
+            // behind a kind nobody knows: a kind that would qualify the event for another signal if it counted
+            Kind::Unknown => {
+                if matches!(ev.ext, Ext::Range) {
+                    into.push(("evt_kind", emit::Value::from("span")));
+                    into.push(("span_name", emit::Value::from("shadow")));
+                } else {
+                    into.push(("evt_kind", emit::Value::from_any(&emit::Kind::Metric)));
+                    into.push(("metric_name", emit::Value::from("shadow_metric")));
+                    into.push(("metric_agg", emit::Value::from("count")));
+                    into.push(("metric_value", emit::Value::from(1i64)));
+                }
+            }
         }
         if ev.kind == Kind::Metric && ev.mval != MVal::Missing {
-            props.push(("metric_value", match ev.mval {
+            into.push(("metric_value", match ev.mval {
                 MVal::Number | MVal::Sequence => emit::Value::from("n/a"),
                 _ => emit::Value::from(42i64),
             }));
         }
         if ev.kind == Kind::Metric && ev.agg.is_some() {
-            props.push(("metric_agg", emit::Value::from("sum")));
+            into.push(("metric_agg", emit::Value::from("sum")));
         }
     }
     // several scopes in one batch: requests group their items by module
@@ -991,8 +1008,14 @@ fn emit_one(otlp: &emit_otlp::Otlp, ev: &Ev, n: u64, nested: Option<(&Ev, u64)>)
     if let Some(r) = reenter.as_ref() {
         props.push(("note", emit::Value::from_display(r)));
     }
-    let evt = emit::Event::new(mdl, emit::Template::literal("simulated event"), extent, &props[..]);
-    otlp.emit(&evt);
+    if chained {
+        use emit::Props as _;
+        let evt = emit::Event::new(mdl, emit::Template::literal("simulated event"), extent, (&props[..]).and_props(&behind[..]));
+        otlp.emit(&evt);
+    } else {
+        let evt = emit::Event::new(mdl, emit::Template::literal("simulated event"), extent, &props[..]);
+        otlp.emit(&evt);
+    }
     if let Some(r) = reenter.as_ref() {
         if !r.done.get() {
             // nothing looked at the value (no configured signal takes the outer event): the inner event is emitted all the same
